@@ -342,12 +342,16 @@ theorem threephase_oil_limits (k : Consts K) (hk : 0 < k.eps) (swco : K) (krnOW 
    fun sw sg h1 h2 => defaultKrn_gas_oil k swco krnOW krwGO sw sg h1 h2 hk⟩
 
 /-- `updateHysteresis` of a cell: both reversal saturations are running minima of `1 − So` and
-`1 − Swl − Sg` (clamped saturations). -/
+`1 − Swl − Sg` (clamped saturations) — third round: for the complete hysteresis object, i.e. every
+EHYSTR model; `krwSwMdc_` is the running maximum and (flag PC / BOTH) `pcSwMdc_` the running minimum
+of `Sw` resp. `So`. -/
 theorem deck_hyst_minimum (c : Cell K) (st : CellState K) (s : Sat K) (h : c.ow.enabled = true) :
-    (updateCell c st s).ow.c.mdc = min st.ow.c.mdc (1 - clamp01 s.so) ∧
-    (updateCell c st s).go.c.mdc = min st.go.c.mdc (1 - c.swl - clamp01 s.sg) ∧
-    (updateCell c st s).ow.k.mdc = min st.ow.k.mdc (1 - clamp01 s.so) ∧
-    (updateCell c st s).go.k.mdc = min st.go.k.mdc (1 - c.swl - clamp01 s.sg) :=
+    (updateCell c st s).ow.krnMdc = min st.ow.krnMdc (1 - clamp01 s.so) ∧
+    (updateCell c st s).go.krnMdc = min st.go.krnMdc (1 - c.swl - clamp01 s.sg) ∧
+    (updateCell c st s).ow.krwMdc = max st.ow.krwMdc (clamp01 s.sw) ∧
+    (updateCell c st s).go.krwMdc = max st.go.krwMdc (clamp01 s.so) ∧
+    (c.ow.cfg.pcModel = 0 → (updateCell c st s).ow.pcMdc = min st.ow.pcMdc (clamp01 s.sw)) ∧
+    (c.go.cfg.pcModel = 0 → (updateCell c st s).go.pcMdc = min st.go.pcMdc (clamp01 s.so)) :=
   updateCell_mdc c st s h
 
 /-! ## Second round: hysteresis -/
